@@ -301,7 +301,7 @@ def eval_jobs(ck: Ck, jobs: list) -> list:
     from concurrent.futures import ThreadPoolExecutor
     if not jobs:
         return []
-    with ThreadPoolExecutor(max_workers=min(10, len(jobs))) as ex:
+    with ThreadPoolExecutor(max_workers=min(6, len(jobs))) as ex:
         futs = [ex.submit(ck.coq_eval, IMPORTS, exprs if isinstance(exprs, list) else [exprs], f'{name}_{k}', 900, PRE)
                 for k, (name, exprs) in enumerate(jobs)]
         return [f.result() for f in futs]
@@ -527,6 +527,78 @@ def finish_parse(ck: Ck, cases, parts, results) -> None:
                                           'options': bits_opts(b), 'n': len(bad)}
 
 
+# ------------------------------------------------------------------------------------------------ correspondence: _read_flag
+FLAG_TEXTS = ['', '!', '!!', 'x', '!x', 'X', '!X', '!!x', 'win32', 'WIN32', '!Win32', 'x360', 'X360', '!x360', '!X360', 'zz',
+              'ZZ', '!zz', 'ß', '!ß', 'SS', 'ss', ' x', 'x ', 'ps3', 'linux', '!linux', 'osx', 'OSX', 'gameconsole',
+              '!gameconsole', '$osx', '!$OSX', 'İ', 'ǅ', 'x!', '! x']
+FLAG_MAPS = [{}, {'win32': False}, {'win32': True}, {'x360': True}, {'X360': True, 'ZZ': True}, {'zz': True}, {'osx': True, 'linux': False},
+             {'!x360': True}, {'ss': True}, {'ß': True}, {'$osx': 1, 'win32': 0}, {'': True}, {'!': True}, {'x': 0}, {'x': 1, 'X': 0},
+             {'x': ''}, {'x': 'no'}, {' x': True}, {'i̇': True}, {'ǆ': True, 'gameconsole': True}]
+
+
+def corr_read_flag(ck: Ck, shape_recognised: bool):
+    """KV/KvFlags.v read_flag against _read_flag itself: every flag text of FLAG_TEXTS under every mapping of FLAG_MAPS
+    (leading `!`, doubled `!`, case, casefold expansions, keys that can never match, falsy / truthy non-bool values),
+    plus random pairs -- many more of them when the source of _read_flag is not the recognised shape."""
+    from srctools import keyvalues as kvmod
+    rng = random.Random(ck.seed * 7919 + 17)
+    pairs = [(m, t) for m in FLAG_MAPS for t in FLAG_TEXTS]
+    alpha = ['x', 'X', '!', 'ß', 's', 'S', ' ', 'z', '3', 'w', 'i', 'n', '2', 'İ']
+    for _ in range(200 if shape_recognised and not ck.tie_broken and not ck.thorough else 3000):
+        t = ''.join(rng.choice(alpha) for _ in range(rng.randrange(0, 5)))
+        m = dict(rng.choice(FLAG_MAPS))
+        for _ in range(rng.randrange(0, 3)):
+            k = ''.join(rng.choice(alpha) for _ in range(rng.randrange(0, 4)))
+            m[k.casefold() if rng.random() < 0.7 else k] = rng.choice([True, False, 0, 1, '', 'a'])
+        if rng.random() < 0.3:
+            t = rng.choice(['', '!', '!!']) + rng.choice(list(m) or ['x'])
+        pairs.append((m, t))
+    cases = []
+    for m, t in pairs:
+        try:
+            want = bool(kvmod._read_flag(m, t))
+        except Exception as e:      # noqa: BLE001
+            ck.obligation('correspondence:read_flag', False, f'_read_flag({m!r}, {t!r}) raised {type(e).__name__}: {e}')
+            ck.tie_broken.append('correspondence read_flag: the implementation raised')
+            return [], lambda results: None
+        names = {t, t[1:]}
+        cases.append((m, {n: n.casefold() for n in names}, t, want))
+        ck.count('read_flag_correspondence_cases')
+        ck.hist('read_flag_corr', ('inverted' if t[:1] == '!' else 'plain') + ('/in-mapping' if any(
+            n.casefold() in m for n in names) else '/default' if any(n.casefold() in kvmod.FLAGS_DEFAULT for n in names)
+            else '/unknown'))
+    jobs, parts = [], []
+    for at in range(0, len(cases), 500):
+        part = list(range(at, min(at + 500, len(cases))))
+        lit = coq_list(
+            f'(([{"; ".join(f"({coq_chars(k)}, {coq_bool(bool(v))})" for k, v in cases[i][0].items())}], '
+            f'[{"; ".join(f"({coq_chars(a)}, {coq_chars(b)})" for a, b in cases[i][1].items())}]), '
+            f'({coq_chars(cases[i][2])}, {coq_bool(cases[i][3])}))' for i in part)
+        jobs.append(('read_flag', f'bad_idx (fun c : (list (str * bool) * list (str * str)) * (str * bool) => '
+                                  f'Bool.eqb (read_flag (cf_tbl (snd (fst c))) (fst (fst c)) {run_defaults()} (fst (snd c))) '
+                                  f'(snd (snd c))) 0 {lit}'))
+        parts.append(part)
+
+    def finish(results) -> None:
+        bad: list[int] = []
+        for part, vals in zip(parts, results):
+            if vals is None:
+                ck.obligation('correspondence:read_flag', False, 'model could not be evaluated')
+                ck.tie_broken.append('correspondence read_flag: model evaluation failed')
+                return
+            bad.extend(part[i] for i in parse_coq_N_list(vals[0]))
+        ck.obligation('correspondence:read_flag', not bad,
+                      f'{len(cases)} (mapping, flag text) pairs, KV/KvFlags.v read_flag (vm_compute) vs _read_flag: '
+                      f'{len(bad)} disagreements' + ('' if shape_recognised else
+                                                     ' (source of _read_flag not in the recognised shape: enlarged sample)'))
+        if bad:
+            m, cf, t, want = min((cases[i] for i in bad), key=lambda c: (len(c[2]), len(c[0])))
+            ck.tie_broken.append('correspondence read_flag (KV/KvFlags.v vs _read_flag)')
+            ck.extra['read_flag_disagreement'] = {'flags': {k: repr(v) for k, v in m.items()}, 'flag_text': t, 'impl': want,
+                                                  'n': len(bad)}
+    return jobs, finish
+
+
 # ------------------------------------------------------------------------------------------------ chunked delivery, model side
 PRE_CHUNK = '''Import ListNotations. Open Scope N_scope.
 Fixpoint bad_idx {A} (f : A -> bool) (n : N) (l : list A) : list N :=
@@ -679,38 +751,51 @@ def corr_tokens(ck: Ck) -> None:
     ck.count('token_exhaustive_cases', nwords)
     for k, v in sorted(outcomes.items()):
         ck.hist('token_exhaustive_outcome', k, v)
-    vals = ck.coq_eval(IMPORTS, [f'tok_shard_hash gen_parsecfg {b} {f} {n}' for b, f, n in shards], name='tokenum', preamble=PRE)
+    # two models against the same implementation checksums: the hand-written token loop prun (KV/KvParse.v) and the
+    # decision tree regenerated from the loop body (Gen/KVLoop_gen.v) under the semantics ploop (KV/KvLoop.v)
+    imports = IMPORTS + [i for i in IMPORTS_LOOP if i not in IMPORTS]
+    models = [('correspondence:parse-token-exhaustive', 'prun', 'tok_shard_hash gen_parsecfg', 'tok_shard_cases gen_parsecfg',
+               'exhaustive token-level correspondence (KV/KvParse.v vs Keyvalues.parse on a scripted tokenizer)'),
+              ('correspondence:parse-token-exhaustive-regenerated-loop', 'the regenerated loop tree (ploop)',
+               'tree_shard_hash gen_ptree gen_pfinal gen_parsecfg', 'tree_shard_cases gen_ptree gen_pfinal gen_parsecfg',
+               'exhaustive token-level correspondence (regenerated loop tree vs Keyvalues.parse on a scripted tokenizer)')]
+    vals = ck.coq_eval(imports, [f'{fn} {b} {f} {n}' for _, _, fn, _, _ in models for b, f, n in shards], name='tokenum',
+                       preamble=PRE)
     if vals is None:
-        ck.obligation('correspondence:parse-token-exhaustive', False, 'model could not be evaluated')
+        for name, *_ in models:
+            ck.obligation(name, False, 'model could not be evaluated')
         ck.tie_broken.append('exhaustive token-level correspondence: model evaluation failed')
         return
     import re as _re
-    got = {sh: int(_re.sub(r'%[A-Za-z0-9_]+$', '', v.strip()), 0) for sh, v in zip(shards, vals)}
-    bad = [sh for sh in shards if got[sh] != want[sh]]
-    detail = ''
-    if bad:
-        # locate one disagreement: literal model results for the first bad shard
-        b, f, n = bad[0]
-        lits = ck.coq_eval(IMPORTS, [f'tok_shard_cases gen_parsecfg {b} {f} {n}'], name='tokenum_cases', preamble=PRE)
-        if lits is not None:
-            model = {}
-            for m in _re.finditer(r'\[([0-9; ]*)\]', lits[0][1:-1]):
-                xs = [int(x) for x in m.group(1).split(';') if x.strip()]
-                model[tuple(xs[3:3 + xs[2]])] = xs[3 + xs[2]:]
-            for w in words(n):
-                r = scripted_parse(w, b, f)
-                if model.get(tuple(w)) != enc_result(r):
-                    detail = (f'; first disagreement: options {bits_opts(b)} ending {"error" if f else "EOF"} tokens '
-                              f'{[("STR:" + repr(SYM_TOKENS[x])) if x < 3 else ["NL", "{", "}", "FLAG:on", "FLAG:off", "="][x - 3] for x in w]}'
-                              f' implementation {r} model {model.get(tuple(w))}')
-                    ck.extra['token_disagreement'] = {'options': bits_opts(b), 'ending': f, 'tokens': list(w), 'impl': r,
-                                                      'model_encoded': model.get(tuple(w))}
-                    break
-        ck.tie_broken.append('exhaustive token-level correspondence (KV/KvParse.v vs Keyvalues.parse on a scripted tokenizer)')
-    ck.obligation('correspondence:parse-token-exhaustive', not bad,
-                  f'{nwords} cases = all token strings over 9 symbols up to length {max(s_[2] for s_ in shards)} (every option '
-                  f'vector up to length {min(s_[2] for s_ in shards)}) in {len(shards)} (option vector, ending) shards, prun '
-                  f'(vm_compute) vs Keyvalues.parse on a scripted tokenizer, checksum per shard: {len(bad)} shards differ' + detail)
+    for mi, (name, what, _, cases_fn, tie) in enumerate(models):
+        mvals = vals[mi * len(shards):(mi + 1) * len(shards)]
+        got = {sh: int(_re.sub(r'%[A-Za-z0-9_]+$', '', v.strip()), 0) for sh, v in zip(shards, mvals)}
+        bad = [sh for sh in shards if got[sh] != want[sh]]
+        detail = ''
+        if bad:
+            # locate one disagreement: literal model results for the first bad shard
+            b, f, n = bad[0]
+            lits = ck.coq_eval(imports, [f'{cases_fn} {b} {f} {n}'], name='tokenum_cases', preamble=PRE)
+            if lits is not None:
+                model = {}
+                for m in _re.finditer(r'\[([0-9; ]*)\]', lits[0][1:-1]):
+                    xs = [int(x) for x in m.group(1).split(';') if x.strip()]
+                    model[tuple(xs[3:3 + xs[2]])] = xs[3 + xs[2]:]
+                for w in words(n):
+                    r = scripted_parse(w, b, f)
+                    if model.get(tuple(w)) != enc_result(r):
+                        detail = (f'; first disagreement: options {bits_opts(b)} ending {"error" if f else "EOF"} tokens '
+                                  f'{[("STR:" + repr(SYM_TOKENS[x])) if x < 3 else ["NL", "{", "}", "FLAG:on", "FLAG:off", "="][x - 3] for x in w]}'
+                                  f' implementation {r} model {model.get(tuple(w))}')
+                        ck.extra['token_disagreement' + ('' if mi == 0 else '_regenerated_loop')] = {
+                            'options': bits_opts(b), 'ending': f, 'tokens': list(w), 'impl': r,
+                            'model_encoded': model.get(tuple(w))}
+                        break
+            ck.tie_broken.append(tie)
+        ck.obligation(name, not bad,
+                      f'{nwords} cases = all token strings over 9 symbols up to length {max(s_[2] for s_ in shards)} (every option '
+                      f'vector up to length {min(s_[2] for s_ in shards)}) in {len(shards)} (option vector, ending) shards, {what} '
+                      f'(vm_compute) vs Keyvalues.parse on a scripted tokenizer, checksum per shard: {len(bad)} shards differ' + detail)
 
 
 # ------------------------------------------------------------------------------------------------ dynamic tie of the tables
@@ -1148,6 +1233,7 @@ def run(ck: Ck) -> None:
             'escape_table_covers_CR': 'esc_cr_ok gen_escfg',
             'escape_table_covers_LF': 'esc_lf_ok gen_escfg',
             'every_escape_written_is_read_back': 'esc_inverse_ok gen_escfg',
+            'escape_fast_path_covers_every_escaped_character': 'Nat.eqb (List.length gen_esc_fastpath_missing) 0',
             'block_head_lexes_to_name_NL_brace_NL(indent_braces=True)': 'head_ok gen_sercfg true',
             'block_head_lexes_to_name_NL_brace_NL(indent_braces=False)': 'head_ok gen_sercfg false',
             'block_tail_lexes_to_brace_NL(indent_braces=True)': 'tail_ok gen_sercfg true',
@@ -1157,6 +1243,9 @@ def run(ck: Ck) -> None:
             'child_indent_is_whitespace': 'child_indent_ok gen_sercfg',
             'root_child_indent_is_whitespace': 'root_indent_ok gen_sercfg',
             'root_test_of_serialise_is_identity_with_None': 'root_test_ok gen_sercfg',
+            'tokenizer_options_of_parse_are_those_of_the_lexer_model':
+                'match gen_parse_topts with cons true (cons true (cons false (cons false (cons false (cons false nil))))) => true '
+                '| _ => false end',
             'parse_newline_key_test_rejects_only_LF_CR': 'key_break_ok gen_parsecfg',
             'parse_newline_value_test_rejects_only_LF_CR': 'value_break_ok gen_parsecfg',
             'cfg_ok_and_esc_ok_and_pcfg_ok(premises of kv_roundtrip)':
@@ -1201,7 +1290,7 @@ def run(ck: Ck) -> None:
         tie_tables(ck, side)
         # the correspondences: cases are generated sequentially (ck.rng), the model is evaluated on all chunks in
         # parallel coqc processes, results are consumed in order
-        pending = [corr_serialise(ck), corr_parse(ck)]
+        pending = [corr_serialise(ck), corr_parse(ck), corr_read_flag(ck, bool(side.get('read_flag_shape_recognised')))]
         results = eval_jobs(ck, [j for jobs, _ in pending for j in jobs])
         at = 0
         for jobs, fin in pending:
@@ -1228,7 +1317,8 @@ def run(ck: Ck) -> None:
     if any(k.startswith(('roundtrip:', 'roundtrip-named-node:', 'roundtrip-options:', 'indent-changes-')) for k in keys):
         for pre in ('instance:block_head_lexes', 'instance:block_tail_lexes', 'instance:leaf_lexes',
                     'instance:child_indent', 'instance:root_child_indent', 'instance:cfg_ok_and_esc_ok',
-                    'instance:escape_table', 'instance:every_escape_written', 'instance:root_test_of_serialise',
+                    'instance:escape_table', 'instance:every_escape_written', 'instance:escape_fast_path',
+                    'instance:root_test_of_serialise',
                     'instance:parse_newline_key_test', 'instance:parse_newline_value_test',
                     'instance:parse_loop_', 'instance:parse_checks_after', 'instance:parse_emptiness', 'instance:loop_ok'):
             ck.explain(pre)
